@@ -86,12 +86,33 @@ pub fn run(ctx: &mut Ctx, _replay: Option<&[String]>) {
     }
     // 8PSK: samples very close to the origin and very far from the constellation, at small and large noise ("every received sample")
     for _ in 0..ctx.scale(1500, 60_000) {
-        let s = 10f64.powf(6.0 * rng.f64_unit() - 5.0);
+        // noise levels down to 1e-10 (1/sigma^2 up to 1e20)
+        let s = 10f64.powf(11.0 * rng.f64_unit() - 10.0);
         let mag = if rng.chance(1, 2) { 10f64.powf(-10.0 + 9.0 * rng.f64_unit()) } else { 10f64.powf(3.0 * rng.f64_unit()) };
         let ang = 6.283185307179586 * rng.f64_unit();
         let (re, im) = (mag * ang.cos(), mag * ang.sin());
         let l = Psk8Demodulator::from_noise_sigma(s).demodulate(&[Complex::new(re, im)]);
         ctx.emit(&format!("c14 dem8 {} {} {}", hx(s), hx(re), hx(im)), &format!("{} {} {}", hx(l[0]), hx(l[1]), hx(l[2])), true, &["8psk-demodulate-extreme-range"]);
+    }
+    // ONE call of the batch `demodulate` on tens of thousands of symbols (longer than any DVB-S2 frame): sampled positions of the result,
+    // including the first, the last and the neighbourhoods of multiples of 1024 / 1365 / 4096
+    {
+        let nsym = 40_000 + rng.below(5000);
+        let s = 0.4 + rng.f64_unit();
+        let syms: Vec<Complex<f64>> = (0..nsym).map(|_| Complex::new(4.0 * rng.f64_unit() - 2.0, 4.0 * rng.f64_unit() - 2.0)).collect();
+        let l8 = Psk8Demodulator::from_noise_sigma(s).demodulate(&syms);
+        let reals: Vec<f64> = syms.iter().map(|c| c.re).collect();
+        let lb = BpskDemodulator::from_noise_sigma(s).demodulate(&reals);
+        let mut idx: Vec<usize> = vec![0, 1, nsym - 1, nsym - 2, nsym / 2];
+        for base in [1024usize, 1365, 1366, 2048, 4096, 8192, 16384, 32768, 32767] { for d in [0usize, 1] { if base + d < nsym { idx.push(base + d); } if base >= d + 1 { idx.push(base - d - 1); } } }
+        for _ in 0..60 { idx.push(rng.below(nsym)); }
+        let long_ok = l8.len() == 3 * nsym && lb.len() == nsym;
+        for &i in &idx {
+            if !long_ok { break; }
+            ctx.emit(&format!("c14 dem8 {} {} {}", hx(s), hx(syms[i].re), hx(syms[i].im)), &format!("{} {} {}", hx(l8[3 * i]), hx(l8[3 * i + 1]), hx(l8[3 * i + 2])), true, &["8psk-demodulate-one-long-batch"]);
+            ctx.emit(&format!("c14 demb {} {}", hx(s), hx(reals[i])), &hx(lb[i]), true, &["bpsk-demodulate-one-long-batch"]);
+        }
+        if !long_ok { ctx.emit(&format!("c14 hard8 - {}", hx(s)), "long-batch-has-the-wrong-number-of-llrs", true, &["8psk-demodulate-one-long-batch"]); }
     }
     for _ in 0..ctx.scale(6000, 1_000_000) {
         let s = (0.05f64.ln() + rng.f64_unit() * (10.0f64 / 0.05).ln()).exp();
